@@ -129,6 +129,9 @@ def check(repo, rep):
     st = cx.model.find_method(MOD, cx.cls(MOD, 'Worker'), 'stop')
     for l in cx.leaves_of(*st):
         names = [e[1][1][2] for e in l.effects if e[0] == 'call' and e[1][0] == 'call' and e[1][1][0] == 'attr' and e[1][1][1] == ('self',)]
+        jcs = [e[1] for e in l.effects if e[0] == 'call' and e[1][0] == 'call' and e[1][1] == ('attr', ('self',), 'join')]
+        rep.ob('stop() joins without a time limit: when stop_all returns, the tokenizer has really stopped (nothing is read, flushed or delivered afterwards)', bool(jcs) and all(not j[2] and not j[3] for j in jcs),
+               cx.where(st[0], st[2]), 'Worker.stop:bounded-join', 'join calls %s' % [show(j) for j in jcs])
         rep.ob('stop() = send(stop marker) then join()', 'send' in names and 'join' in names and names.index('send') < names.index('join'), cx.where(st[0], st[2]), 'Worker.stop', 'calls %s' % names)
     # ---------------------------------------------------------------- T4 saver close
     sc = cx.cls(MOD, 'StreamSaverWorker')
